@@ -1080,7 +1080,8 @@ type lcMap struct {
 
 var lcTable = []lcMap{
 	{'\u0041', '\u005A', LowercaseAdd, 32},
-	{'\u00C0', '\u00DE', LowercaseAdd, 32},
+	{'\u00C0', '\u00D6', LowercaseAdd, 32},
+	{'\u00D8', '\u00DE', LowercaseAdd, 32}, // U+00D7 is the multiplication sign
 	{'\u0100', '\u012E', LowercaseBor, 0},
 	{'\u0130', '\u0130', LowercaseSet, 0x0069},
 	{'\u0132', '\u0136', LowercaseBor, 0},
@@ -1129,7 +1130,8 @@ var lcTable = []lcMap{
 	{'\u0388', '\u038A', LowercaseAdd, 37},
 	{'\u038C', '\u038C', LowercaseSet, 0x03CC},
 	{'\u038E', '\u038F', LowercaseAdd, 63},
-	{'\u0391', '\u03AB', LowercaseAdd, 32},
+	{'\u0391', '\u03A1', LowercaseAdd, 32},
+	{'\u03A3', '\u03AB', LowercaseAdd, 32}, // U+03A2 is unassigned
 	{'\u03E2', '\u03EE', LowercaseBor, 0},
 	{'\u0401', '\u040F', LowercaseAdd, 80},
 	{'\u0410', '\u042F', LowercaseAdd, 32},
@@ -1142,10 +1144,11 @@ var lcTable = []lcMap{
 	{'\u04EE', '\u04F4', LowercaseBor, 0},
 	{'\u04F8', '\u04F8', LowercaseSet, 0x04F9},
 	{'\u0531', '\u0556', LowercaseAdd, 48},
-	{'\u10A0', '\u10C5', LowercaseAdd, 48},
-	{'\u1E00', '\u1EF8', LowercaseBor, 0},
+	{'\u10A0', '\u10C5', LowercaseAdd, 7264}, // Georgian capitals lower-case to U+2D00..U+2D25
+	{'\u1E00', '\u1E94', LowercaseBor, 0},
+	{'\u1EA0', '\u1EF8', LowercaseBor, 0}, // U+1E96..U+1E9F are not case pairs
 	{'\u1F08', '\u1F0F', LowercaseAdd, -8},
-	{'\u1F18', '\u1F1F', LowercaseAdd, -8},
+	{'\u1F18', '\u1F1D', LowercaseAdd, -8},
 	{'\u1F28', '\u1F2F', LowercaseAdd, -8},
 	{'\u1F38', '\u1F3F', LowercaseAdd, -8},
 	{'\u1F48', '\u1F4D', LowercaseAdd, -8},
